@@ -204,7 +204,10 @@ class LDAWrapper(LinearSolver):
                 x0_loc[idia, ...] = 0
                 for x in x_data:
                     beta = x0_loc[isel, ...].T @ x.conj() / (x.conj() @ x)
-                    x0_loc[isel, ...] -= beta * x
+                    rem_x0 = x[:, None] * beta
+                    if np.iscomplexobj(rem_x0) and not np.iscomplexobj(x0_loc):
+                        continue
+                    x0_loc[isel, ...] -= rem_x0
             else:
                 x0_loc = None
 
